@@ -49,8 +49,17 @@ class BulkMonitor(Monitor):
     def pre(self, fn, args, kwargs):
         mon = f"{self.name}:{fn}"
         conv = args[0]
-        sp = domain_spec(conv, mon)
-        if sp is None:
+        # the oracle is the converter's own scalar method, so user subclasses (e.g. overriding the documented
+        # standardize_identifier hook) are in the domain as well; only converters that are not strict are not
+        if not isinstance(conv, api().Converter):
+            out_of_domain(mon, "not-a-converter")
+            return None
+        try:
+            if not spec.is_unique(spec.snapshot(conv)) or not isinstance(conv.delimiter, str) or not conv.delimiter:
+                out_of_domain(mon, "not-strict")
+                return None
+        except Exception:  # noqa: BLE001
+            out_of_domain(mon, "no-records")
             return None
         a, kw = list(args[1:]), dict(kwargs)
         ctx = {"conv": conv, "depth": S.depth, "fn": fn}
